@@ -803,7 +803,7 @@ const EXTRA_OP_ATTRS: [(&str, u8); 34] = [
 ];
 
 /// base programs: (name, number of optional-setter subsets)
-const BASES: [(&str, u32); 14] = [
+const BASES: [(&str, u32); 15] = [
     ("print_job", 8),
     ("get_printer_attributes", 3),
     ("create_job", 4),
@@ -818,6 +818,7 @@ const BASES: [(&str, u32); 14] = [
     ("raw_request_without_uri", 1),
     ("response", 1),
     ("response_with_second_operation_group", 1),
+    ("attributes_built_from_scratch_other_group_first", 4),
 ];
 
 fn c09_build(base: usize, subset: u32, adds: &[u32]) -> IppRequestResponse {
@@ -900,6 +901,22 @@ fn c09_build(base: usize, subset: u32, adds: &[u32]) -> IppRequestResponse {
         10 => IppRequestResponse::new(IppVersion::v2_0(), Operation::GetJobs, Some(uri)),
         11 => IppRequestResponse::new(IppVersion::v1_1(), Operation::CupsGetPrinters, None),
         12 => IppRequestResponse::new_response(IppVersion::v1_1(), StatusCode::SuccessfulOk, 5),
+        14 => {
+            // IppAttributes::new() filled through add() with a job / printer attribute FIRST, so that the operation
+            // group is not the first group in memory; installed through attributes_mut()
+            let mut a = IppAttributes::new();
+            a.add(if bit(0) { DelimiterTag::JobAttributes } else { DelimiterTag::PrinterAttributes }, IppAttribute::new("copies", IppValue::Integer(1)));
+            if bit(1) {
+                a.add(DelimiterTag::UnsupportedAttributes, IppAttribute::new("u", IppValue::NoValue));
+            }
+            a.add(DelimiterTag::OperationAttributes, IppAttribute::new("job-id", IppValue::Integer(3)));
+            a.add(DelimiterTag::OperationAttributes, IppAttribute::new("printer-uri", IppValue::Uri("ipp://h/p".into())));
+            a.add(DelimiterTag::OperationAttributes, IppAttribute::new("attributes-natural-language", IppValue::NaturalLanguage("en".into())));
+            a.add(DelimiterTag::OperationAttributes, IppAttribute::new("attributes-charset", IppValue::Charset("utf-8".into())));
+            let mut r = IppRequestResponse::new_response(IppVersion::v1_1(), StatusCode::SuccessfulOk, 5);
+            *r.attributes_mut() = a;
+            r
+        }
         _ => {
             // a message that already holds a second, empty operation-attributes group (public API: groups_mut)
             let mut r = IppRequestResponse::new(IppVersion::v1_1(), Operation::GetJobAttributes, Some(uri));
